@@ -411,6 +411,80 @@ def oracle(ctx: Ctx, per: int):
                     pass
 
 
+def through_the_protocol(ctx: Ctx) -> None:
+    """The echo reaches the state machine through the REAL PortProtocol, device filters included: with the known list enforced (the controller and
+    the gateway's real id listed, the 18:000730 placeholder not), frames whose echo still carries the placeholder -- the dongle rewrites the
+    first address only -- are recognised as echoes, and an ordinary request gets its reply."""
+    import asyncio  # noqa: PLC0415
+
+    from ramses_tx import exceptions as exc  # noqa: PLC0415
+    from ramses_tx.command import Command  # noqa: PLC0415
+    from ramses_tx.packet import Packet  # noqa: PLC0415
+    from ramses_tx.protocol import PortProtocol  # noqa: PLC0415
+    from ramses_tx.typing import QosParams  # noqa: PLC0415
+
+    CTL = "01:145038"
+    frames = [("RQ --- 18:000730 01:145038 --:------ 12B0 001 01", f"RP --- {CTL} {GW} --:------ 12B0 003 010000"),
+              (" I --- --:------ --:------ 18:000730 0008 002 00BB", None),
+              (" I --- 18:000730 --:------ 18:000730 30C9 003 0007D0", None),
+              (" I --- 18:000730 63:262142 --:------ 1FC9 006 0030C9489A21", None)]
+    results = {}
+
+    async def main(listed, blocked):
+        loop = asyncio.get_running_loop()
+        got = []
+        pp = PortProtocol(got.append, enforce_include_list=bool(listed), exclude_list=blocked, include_list=listed)
+
+        class Tr:
+            def get_extra_info(self, k, d=None):
+                return {"active_gwy": GW, "is_evofw3": True}.get(k, d)
+
+            def is_closing(self):
+                return False
+
+            def close(self):
+                pass
+
+            async def write_frame(self, frame, disable_tx_limits=False):
+                f = frame.split(" ")
+                echo = frame if not frame[7:16] == HGI else frame[:7] + GW + frame[16:]      # the dongle puts its id in the FIRST address only
+                loop.call_later(0.005, lambda: pp.pkt_received(Packet(_dt.datetime.now(), "000 " + echo)))
+                rp = next((r for fr, r in frames if fr == frame), None)
+                if rp:
+                    loop.call_later(0.01, lambda: pp.pkt_received(Packet(_dt.datetime.now(), "045 " + rp)))
+                del f
+
+        pp.connection_made(Tr(), ramses=True)
+        await asyncio.sleep(0)
+        for frame, rp in frames:
+            try:
+                pkt = await asyncio.wait_for(pp.send_cmd(Command(frame), qos=QosParams(wait_for_reply=bool(rp), timeout=3, max_retries=1)), 8)
+                results[(tuple(listed), tuple(blocked), frame)] = ("ok", str(pkt))
+            except (exc.ProtocolError, TimeoutError) as err:
+                results[(tuple(listed), tuple(blocked), frame)] = ("failed", f"{type(err).__name__}: {err}"[:160])
+        try:
+            pp.connection_lost(None)
+        except AssertionError:       # the FSM's own consistency check on being torn down right after a send: C09's subject, not this one's
+            pass
+
+    for listed, blocked in (({CTL: {}, GW: {}}, {}), ({}, {}), ({CTL: {}, GW: {"class": "HGI"}}, {"04:111111": {}})):
+        loop = asyncio.new_event_loop()
+        asyncio.set_event_loop(loop)
+        try:
+            loop.run_until_complete(main(listed, blocked))
+        except Exception as err:  # noqa: BLE001
+            ctx.violation(f"harness:through-the-protocol-raises:{type(err).__name__}", str(err)[:200], {"known_list": list(listed)}, "input")
+        finally:
+            asyncio.set_event_loop(None)
+            loop.close()
+    for (listed, blocked, frame), (how, what) in results.items():
+        ctx.case(("through-protocol", listed, blocked, frame), True, "echo-through-the-real-protocol")
+        if how != "ok":
+            ctx.violation("echo-not-recognised:through-the-protocol" + (":placeholder-in-the-echo" if HGI in frame[16:] or frame[7:16] != HGI else ""),
+                          f"{frame} was written and echoed by the gateway ({GW}), yet send_cmd ended with {what}",
+                          {"frame": frame, "known_list": list(listed), "block_list": list(blocked), "enforce_known_list": bool(listed), "outcome": what}, "input")
+
+
 def run(ctx: Ctx) -> None:
     logging.disable(logging.CRITICAL)
     thorough = ctx.tier == "thorough"
@@ -426,6 +500,7 @@ def run(ctx: Ctx) -> None:
     MISMATCH.clear()
     oracle(ctx, 3 if thorough else 1)
     two_gateways(ctx)
+    through_the_protocol(ctx)
     ctx.obligation("correspondence:matching-rule-vs-real-WantEcho/WantRply", not MISMATCH, "correspondence",
                    f"{len(MISMATCH)} decisions differ; first: {MISMATCH[0]}" if MISMATCH else "")
 
